@@ -7,6 +7,7 @@
 #include <limits.h>
 #include <math.h>
 #include <stdlib.h>
+#include <stdbool.h>
 
 /* C++ exceptions (rule R9/R14): ghost flag + early return */
 int verif_thrown;
